@@ -592,7 +592,7 @@ fn socks(args: &[&str]) -> String {
         });
         let _cw = writer.await;
         // settle: until the local client saw EOF, or nothing changed for `quiet`
-        let quiet = Duration::from_millis(300);
+        let quiet = Duration::from_millis(500);
         let t0 = std::time::Instant::now();
         let mut last = (0usize, 0usize);
         let mut since = std::time::Instant::now();
